@@ -655,6 +655,8 @@ func runC19(r *Run) {
 	}
 	units := []*unit{
 		{"long", `"long"`, 1, nil},
+		{"long/object", `{"type":"long"}`, 1, nil},
+		{"long/unknown-logical", `{"type":"long","logicalType":"no-such-logical-type"}`, 1, nil},
 		{"timestamp-micros", `{"type":"long","logicalType":"timestamp-micros"}`, 1000, nil},
 		{"timestamp-millis", `{"type":"long","logicalType":"timestamp-millis"}`, 1000000, nil},
 	}
